@@ -189,7 +189,7 @@ Proof. exact bright_bc_avg_difference. Qed.
 Print Assumptions C18_bright_bc_is_difference_of_means.
 
 (* bg_off shifts average and percentiles one-to-one (bright_perc: after the
-   proposed repair `if bg_off is not None`). *)
+   repair 3735645 `if bg_off is not None`). *)
 Theorem C18_bright_bc_offset_one_to_one :
   forall (mask : list bool) (img bg : list Z) (o a v a0 v0 : Q),
     get_bright_bc mask img bg (Some o) = Some (a, v) ->
